@@ -248,6 +248,37 @@ func runC18Migrate(t *vs.Tape, cfg map[string]string) (res vs.Result) {
 	}
 	c.Inc("round_trips")
 
+	// ---- phase 1b: one malformed entry (a signature the store must reject) ----
+	if n > 0 && t.Chance("malformed", 1, 2) {
+		k := t.Intn(n, "malformed.at")
+		bad := append([]detection.Signature(nil), entries...)
+		bad[k].TopologyHash = "" // required field missing
+		bdata := encodeDB(t, bad)
+		d, s, err := freshStoreOnNewDisk()
+		if err != nil {
+			res.Infra = "open: " + err.Error()
+			return
+		}
+		must(d.WriteFile(simJSONIn, bdata, 0o644))
+		got, err := s.MigrateFromJSON(simJSONIn)
+		c.Inc("malformed_entry_inputs")
+		tag := fmt.Sprintf("entry %d of %d lacks its topology hash", k, n)
+		if err == nil {
+			s.Close()
+			return fail(vs.Violationf("C18/malformed-accepted", "%s: MigrateFromJSON returned success (%d)", tag, got))
+		}
+		if got < 0 || got > k {
+			s.Close()
+			return fail(vs.Violationf("C18/processed-not-in-store/count", "%s: reports %d processed, but the batch holding entry %d cannot have been committed", tag, got, k))
+		}
+		if v := storeEquals(s, lastWins(bad[:got]), fmt.Sprintf("%s (error %q, reports %d processed)", tag, err, got)); v != nil {
+			v.Class = "C18/processed-not-in-store/" + v.Class
+			s.Close()
+			return fail(v)
+		}
+		s.Close()
+	}
+
 	// ---- phase 2: every truncation point ----
 	var cuts []int
 	if len(data) <= 1500 {
